@@ -47,7 +47,14 @@ impl PieceMoves {
 
     /// Check if it contains a given [`Move`].
     pub fn has(&self, mv: Move) -> bool {
-        let has_promotion = mv.promotion.is_some();
+        let has_promotion = matches!(
+            mv.promotion,
+            Some(Piece::Knight | Piece::Bishop | Piece::Rook | Piece::Queen)
+        );
+        if mv.promotion.is_some() && !has_promotion {
+            // Kings and pawns are never promotion pieces.
+            return false;
+        }
         let is_promotion = self.piece == Piece::Pawn &&
             matches!(mv.to.rank(), Rank::First | Rank::Eighth);
         self.from == mv.from
